@@ -21,15 +21,15 @@ LITERAL = {
     '_': ' _ ', '^': ' ^ ', '~': ' ~ ', '*': ' * ', '[': ' \\[ ', ']': ' \\] ', '(': ' ( ', ')': ' ) ', '/': ' / ', '`': ' \\` ', 'é': ' é ', '中': ' 中 ', '\U0001F600': ' \U0001F600 ',
     '=': ' = ', '+': ' + ', '!': ' ! ', '@': ' @ ', ';': ' ; ', ',': ' , ', '?': ' ? ',
     # sequences that look like the beginning or end of markup but are plain text on their own (smart typography is off here)
-    '<!--': ' <!-- ', '-->': ' --> ', ']]>': ' \\]\\]> ', '&#': ' &# ', '<!': ' <! ', '</': ' </ ', '<?': ' <? ', '--': ' -- ', '...': ' ... ',
+    '<!--': ' <!-- ', '-->': ' --> ', ']]>': ' \\]\\]> ', '&#': ' &# ', '<!': ' <! ', '</': ' </ ', '<?': ' <? ', '--': ' -- ', '...': ' ... ', '~>': ' ~> ', '<<': ' << ', '>>': ' >> ',
 }
 TEXT_SLOTS = ['paragraph', 'atx-heading', 'atx-closed', 'setext-heading', 'bullet-item', 'enum-item', 'loose-item', 'quote', 'table-cell', 'table-head', 'definition', 'term',
               'link-text', 'inline-footnote', 'ref-footnote', 'emphasis', 'strong', 'meta-title', 'meta-custom']
 VERBATIM_SLOTS = ['code-span', 'fenced-code', 'indented-code', 'math-inline', 'math-display']
 ATTR_SLOTS = ['link-title', 'image-alt', 'image-title', 'ref-title']
 
-HTML_OK = re.compile(r'^(?:[^&<>"]|&(?:amp|lt|gt|quot|apos|#\d+|#x[0-9a-fA-F]+);)*$')
-HTML_TEXT_OK = re.compile(r'^(?:[^&<>]|&(?:amp|lt|gt|quot|apos|#\d+|#x[0-9a-fA-F]+);)*$')
+HTML_OK = re.compile(r'^(?:[^&<"]|&(?:amp|lt|gt|quot|apos|#\d+|#x[0-9a-fA-F]+);)*$')
+HTML_TEXT_OK = re.compile(r'^(?:[^&<]|&(?:amp|lt|gt|quot|apos|#\d+|#x[0-9a-fA-F]+);)*$')
 LATEX_ESC = r'(?<=-)\{\}(?=-)|\\textbackslash\{\}|\\ensuremath\{\\sim\}|\\slash\{\}|\\\^\{\}|\$<\$|\$>\$|\\textbar\{\}|\\[#{}$%&_]'
 LATEX_OK = re.compile(r'^(?:[^\\{}$%&#_^~]|' + LATEX_ESC + r')*$')
 
@@ -132,6 +132,12 @@ def check_nesting(fname, out):
     return None
 
 
+def seqkey(p):
+    """key suffix naming a multi-character payload (a marker-like sequence), nothing for single characters"""
+    q = p.replace('\\', '').strip()
+    return (':seq:' + q) if len(q) > 1 and not q.isalnum() and q in ('<!--', '-->', ']]>', '&#', '<!', '</', '<?', '--', '...', '~>', '<<', '>>') else ''
+
+
 def escaping_case(r, s, rng, i):
     chars = list(LITERAL)
     picks = {}
@@ -179,7 +185,7 @@ def escaping_case(r, s, rng, i):
             if fname in ('html', 'fodt', 'opml'):
                 ok = (HTML_OK if (where == 'attr' or fname == 'opml') else HTML_TEXT_OK).match(strip_markup(seg_s, fname))
                 if not ok:
-                    r.violate('unescaped:%s:%s:%s' % (fname, where, kind if where != 'text' else 'text'), 'reserved character %r from a %s slot reaches %s unescaped: %r' % (p, kind, fname, seg_s[:60]), case, core.show(src, 500))
+                    r.violate('unescaped:%s:%s:%s%s' % (fname, where, kind if where != 'text' else 'text', seqkey(p) if where != 'attr' else ''), 'reserved character %r from a %s slot reaches %s unescaped: %r' % (p, kind, fname, seg_s[:60]), case, core.show(src, 500))
                     continue
                 if where == 'verbatim' and fname == 'html':
                     back = unescape_xml(strip_markup(seg_s, fname)).strip()
@@ -193,7 +199,7 @@ def escaping_case(r, s, rng, i):
                     continue        # verbatim environments and math carry raw text in LaTeX; a code span is \texttt{...} and needs escaping
                 body = strip_markup(seg_s, fname)
                 if not LATEX_OK.match(body):
-                    r.violate('unescaped:%s:%s:%s' % (fname, where, kind if where != 'text' else 'text'), 'reserved character %r from a %s slot reaches %s unescaped: %r' % (p, kind, fname, seg_s[:60]), case, core.show(src, 500))
+                    r.violate('unescaped:%s:%s:%s%s' % (fname, where, kind if where != 'text' else 'text', seqkey(p)), 'reserved character %r from a %s slot reaches %s unescaped: %r' % (p, kind, fname, seg_s[:60]), case, core.show(src, 500))
         err = check_nesting(fname, out)
         r.stats['nesting_checked'] += 1
         if err:
